@@ -18,6 +18,8 @@ reply : err= vis= calls=<e@path@size;…> pkgs=<id@e@path;…> st=<e=status,…>
         … contained=<calls> the attempts per C09_contained_run_any_benign (fault-free rule minus files behind a fault), to be compared under hyp=1
         … nopanic=<0|1> mspecerr= mspecvis= mspeccalls= : the sequential machine (Spec/WalkMachine.lean) on the trace of the configuration
           with ErrorOnFSErrors cleared; theorem C10_machine_any: without a panicking extractor the scan ends with the fs error or is this
+        … glue=refused|empty: Scan refused the configuration (err=cfg) / no filesystem extractor (empty success, nothing walked)
+          cfg keys nrd= real= (harness only) out= (a skipped directory under no scan root: refused)
         … distinct=<0|1> every directory of every root lists distinct names (DistinctNames); subdirhyp=<0|1> one root, paths=[d], benign,
           and the hypotheses of C01_subdir_partial hold for d (theorem mustRequested_subdir_of_hyp)
 -/
@@ -231,6 +233,11 @@ def handle (line : String) : String :=
           cancelBefore := getKV kv "cb" = 1
           cancelAt := if getKV kv "ca" = 0 then none else some (getKV kv "ca")
           giMatch := giMatchOf tbl }
+        -- the glue of Scan / filesystem.Run (Model/Scan.lean `glue`): refused configurations and the scan without filesystem extractors
+        match glue c roots.length (getKV kv "out" ≥ 1) with
+        | .refused => "err=cfg vis=0 calls=- pkgs=- st=- fnd=- hyp=0 glue=refused"
+        | .empty => "err=none vis=0 calls=- pkgs=- st=- fnd=- hyp=0 glue=empty"
+        | .walks =>
         let r := run c roots
         let o := scan naming c roots
         let hyp := c.maxInodes = 0 && !c.errorOnFSErrors && !c.cancelBefore && c.cancelAt.isNone &&
